@@ -511,10 +511,12 @@ def random_chooser(rng):
     return ch
 
 
-def explore_all(run_prefix, workers=8, max_runs=None):
+def explore_all(run_prefix, workers=8, max_runs=None, rng=None):
     """Stateless depth-first enumeration of ALL interleavings of a deterministic system.
     run_prefix(prefix tuple) -> result of run_schedule(... follow(prefix)); because the default policy picks the lowest enabled child,
     every alternative at a step beyond the prefix is a new, not yet explored branch: each leaf is executed exactly once.
+    max_runs bounds the number of executions (a retrying implementation has an unbounded tree); when an rng is given the next branch
+    is drawn at random from the frontier instead of depth-first, so that a truncated exploration is not confined to one subtree.
     -> (list of results, complete: bool)"""
     from concurrent.futures import FIRST_COMPLETED, ThreadPoolExecutor, wait
     results = []
@@ -529,7 +531,7 @@ def explore_all(run_prefix, workers=8, max_runs=None):
                     complete = False
                     todo = []
                     break
-                p = todo.pop()
+                p = todo.pop(rng.randrange(len(todo))) if rng is not None else todo.pop()
                 pending[ex.submit(run_prefix, p)] = p
                 started += 1
             if not pending:
